@@ -165,6 +165,20 @@ def ref_full():
     return out
 
 
+def unx_full():
+    out = []
+    for t in (0, 1):
+        for v in (1, 2, 3):
+            out.append(step("v", t, v))
+            out.append(step("i", t, v))
+        out.append(step("c", t))
+        out.append(step("m", t))
+    for v in (1, 2):
+        out.append(step("E", 0, v))
+    out += [step("s"), step("S")]
+    return out
+
+
 def histories(alpha, depth):
     for d in range(1, depth + 1):
         for h in itertools.product(alpha, repeat=d):
@@ -249,6 +263,15 @@ def gen(tier, rng):
                 for h in exact(core, 4):
                     out.append(line(op, h))
         for _ in range(nrand):
+            out.append(line(op, rand_hist(rng, full, 3, 10)))
+    # ---------------- unexpected
+    for op in ("unx.il", "unx.tt"):
+        full = unx_full()
+        out.append(line(op, []))
+        if not search:
+            for h in histories(full, 2 if quick else 3):
+                out.append(line(op, h))
+        for _ in range(nrand // 3):
             out.append(line(op, rand_hist(rng, full, 3, 10)))
     # ---------------- optional<T&>
     for op in ("ref.i", "ref.t"):
